@@ -98,7 +98,7 @@ type treeViolation struct {
 }
 
 // checkTree evaluates the unconditional clauses on a returned tree.
-func checkTree(nodes []parser.Node, judgeMacros bool, depthLimit int) (f treeFacts, viols []treeViolation) {
+func checkTree(nodes []parser.Node, sLevel int, depthLimit int) (f treeFacts, viols []treeViolation) {
 	seen := map[string]bool{}
 	add := func(sig, what string) {
 		if !seen[sig] {
@@ -141,12 +141,12 @@ func checkTree(nodes []parser.Node, judgeMacros bool, depthLimit int) (f treeFac
 						f.hasDollar = true
 						f.dollarArg = a
 					}
-					if judgeMacros {
+					if sLevel == 2 || (sLevel == 1 && strings.Contains(a, "$(")) {
 						kind := "partial"
 						if macroRefRe.MatchString(a) {
 							kind = "reference"
 						}
-						add("tree/macro-unexpanded/"+kind, fmt.Sprintf("argument %q of %q (line %d) still contains '$' although every '$' of the input starts a complete simple macro reference", a, n.Name, n.Line))
+						add("tree/macro-unexpanded/"+kind, fmt.Sprintf("argument %q of %q (line %d) still contains a macro reference although every \"$(\" of the input starts a complete simple macro reference", a, n.Name, n.Line))
 					}
 				}
 			}
